@@ -2,6 +2,9 @@ package main
 
 import (
 	"fmt"
+	"os"
+	"path/filepath"
+	"sort"
 	"strings"
 )
 
@@ -200,6 +203,45 @@ func genC12(r *Rand, nvar int) *VariantCase {
 	return c
 }
 
+// loadCorpus: the book programs copied from /repo/test into /verif/corpus/book.
+func loadCorpus(env *Env) map[string]string {
+	out := map[string]string{}
+	files, _ := filepath.Glob(filepath.Join(env.Verif, "corpus", "book", "*.nas"))
+	sort.Strings(files)
+	for _, f := range files {
+		if b, err := os.ReadFile(f); err == nil {
+			out[filepath.Base(f)] = string(b)
+		}
+	}
+	return out
+}
+
+// relayoutRaw: line-level re-layout of a source whose tokens are not known:
+// own-line comments, blank lines, leading/trailing whitespace, line endings.
+func relayoutRaw(r *Rand, src string) (string, string) {
+	lines := strings.Split(strings.TrimSuffix(src, "\n"), "\n")
+	var out []string
+	for _, ln := range lines {
+		if r.Chance(1, 6) {
+			out = append(out, Pick(r, []string{"", "; " + Pick(r, commentTexts), "\t# " + Pick(r, commentTexts), "   "}))
+		}
+		trim := strings.TrimLeft(ln, " \t")
+		l := ln
+		if trim != "" && r.Chance(1, 2) {
+			l = wsRun(r, 0) + trim
+			if strings.HasPrefix(ln, "\t") || strings.HasPrefix(ln, " ") {
+				l = wsRun(r, 1) + trim
+			}
+		}
+		if r.Chance(1, 4) {
+			l += wsRun(r, 1)
+		}
+		out = append(out, l)
+	}
+	eol := Pick(r, []string{"\n", "\r\n", "\r"})
+	return strings.Join(out, eol) + eol, map[string]string{"\n": "lf", "\r\n": "crlf", "\r": "cr"}[eol] + "+raw-lines"
+}
+
 func init() {
 	props["C12"] = propCheck{run: func(env *Env, rep *Report) {
 		env.InitBaseline()
@@ -212,7 +254,23 @@ func init() {
 		for i := 0; i < n; i++ {
 			cases = append(cases, genC12(r, nv))
 		}
-		rep.Rule = "seeded programs (labels, EQUs, data with strings containing ; # , and quotes, GLOBAL, both modes) rendered canonically and in token-preserving re-layouts: ';' and '#' comments (text with quotes, commas, brackets, Japanese) after any statement or on their own lines, blank lines, indentation of any statement including labels, tabs/spaces, 0-2 blanks around commas, operators, parentheses and inside brackets, trailing whitespace, LF/CRLF/CR, final newline present/absent after a non-label statement; " +
+		corpus := loadCorpus(env)
+		var cnames []string
+		for k := range corpus {
+			cnames = append(cnames, k)
+		}
+		sort.Strings(cnames)
+		for _, k := range cnames {
+			c := &VariantCase{Prop: "C12", Base: []byte(corpus[k]), Cell_: "corpus " + k}
+			for v := 0; v < nv/2+1; v++ {
+				t, d := relayoutRaw(r, corpus[k])
+				c.Variants = append(c.Variants, []byte(t))
+				c.Labels = append(c.Labels, d)
+			}
+			cases = append(cases, c)
+		}
+		rep.Extra["corpus_programs"] = len(cnames)
+		rep.Rule = "the book programs of /repo/test (copied to corpus/book) under line-level re-layouts, and seeded programs (labels, EQUs, data with strings containing ; # , and quotes, GLOBAL, both modes) rendered canonically and in token-preserving re-layouts: ';' and '#' comments (text with quotes, commas, brackets, Japanese) after any statement or on their own lines, blank lines, indentation of any statement including labels, tabs/spaces, 0-2 blanks around commas, operators, parentheses and inside brackets, trailing whitespace, LF/CRLF/CR, final newline present/absent after a non-label statement; " +
 			"only gaps where NASK lexically allows whitespace are varied; oracle: every re-layout assembles to the bytes of the canonical layout; distinct = (mode, origin, size bucket) cells; each case carries several layouts"
 		outs := RunCases(env, cases)
 		nl := 0
